@@ -4,7 +4,7 @@ SPEC = {
     "gen": [],
     "streams": [
         {"name": "mkvs-root", "cmd": "mkvs",
-         "args": {"quick": ["-mode", "c02", "-cases", "300"], "thorough": ["-mode", "c02", "-cases", "12000"]},
+         "args": {"quick": ["-mode", "c02", "-cases", "300"], "thorough": ["-mode", "c02", "-cases", "3000"]},
          "search_args": ["-mode", "c02", "-cases", "3000"]},
     ],
     "trusted_base": [
@@ -15,6 +15,7 @@ SPEC = {
         "modelled, not verified: SHA-512/256 itself (abstract H in the theorems); node cache LRU, node databases and serialization are dimensions of the correspondence runs only",
     ],
     "assumptions": [
+        "known findings (known_findings.json): a failing case is attributed to C02:node-capacity-not-above-path-depth iff 0 < node_cap <= (deepest path of the reference trie)+1, else to C02:embedded-leaf-evicted-under-dirty-internal-node iff the value capacity is one of the small ones and an embedded leaf existed (proper-prefix key pair, or the VerifScan anomaly was seen); every other failure, in particular any failure with node_cap above the path depth and no small value capacity, or with a small value capacity but prefix-free keys, is a violation",
         "keys are byte strings (every element < 256); for root_sensitive additionally key length < 8192 bytes (LabelBitLength/Depth is a uint16) and value length < 2^32 (uint32 length field), and H has a fixed output length",
         "keys and values passed to the API are non-nil slices (Tree.Insert(nil, v) is out of contract)",
     ],
